@@ -214,6 +214,21 @@ func routeFlags(d model.Route, flags map[string]bool) {
 	}
 }
 
+// pieceOf reports whether v is some substring of the path, decoded once.
+func pieceOf(path, v string) bool {
+	if strings.Contains(path, v) {
+		return true
+	}
+	for i := 0; i < len(path); i++ {
+		for j := i + 1; j <= len(path); j++ {
+			if model.Decode1(path[i:j]) == v {
+				return true
+			}
+		}
+	}
+	return false
+}
+
 func checkCase(c Case) evid.Outcome {
 	out := evid.Outcome{Sub: len(c.Reqs)}
 	trees, leaves, _, err := rt.Trees(c.Regs)
@@ -224,7 +239,9 @@ func checkCase(c Case) evid.Outcome {
 	}
 	app, _, perr := rt.NewApp(c.Regs)
 	if perr != nil {
+		// (the tree took the set, the Flame did not: C08 / C01 report that)
 		out.Excluded = 1
+		out.Classes = append(out.Classes, "flame-registration-rejected")
 		return out
 	}
 	for _, q := range c.Reqs {
@@ -278,6 +295,7 @@ func checkCase(c Case) evid.Outcome {
 			tries = append(tries, formTry{short, false})
 		}
 		explained := false
+		var explainedBy []model.Seg
 		urlOK := false
 		var firstRebuilt string
 		var urlGot string
@@ -286,6 +304,9 @@ func checkCase(c Case) evid.Outcome {
 			rebuilt, ok := align(ft.segs, ps, vals, nil, fl)
 			if !ok {
 				continue
+			}
+			if !explained {
+				explainedBy = ft.segs
 			}
 			explained = true
 			for k := range fl {
@@ -317,11 +338,48 @@ func checkCase(c Case) evid.Outcome {
 		if !explained {
 			return evid.Fail("values", "%s %q won by %q with params %s: no alignment exists in which every value is the once-decoded piece its own pattern captured", q.M, q.P, leaf.Route(), rt.Show(vals))
 		}
+		// "exactly the captured substrings": a key that the form which matched does
+		// not bind may only be what an alternative the matcher tried and gave up
+		// left behind (the declared reading) - the bind of another route of that
+		// method, holding a once-decoded piece of this path. The binds of an
+		// optional segment that took no part are not among them.
+		bound := map[string]bool{}
+		for _, sg := range explainedBy {
+			_, binds, _ := sg.Classify()
+			for _, b := range binds {
+				bound[b] = true
+			}
+		}
+		elsewhere := map[string]bool{}
+		for i, g := range c.Regs {
+			if i == win || leaves[i][q.M] == nil {
+				continue
+			}
+			for _, sg := range rt.Deriv(g.R).Segs {
+				_, binds, _ := sg.Classify()
+				for _, b := range binds {
+					elsewhere[b] = true
+				}
+			}
+		}
+		for k, v := range vals {
+			if bound[k] {
+				continue
+			}
+			if !elsewhere[k] {
+				return evid.Fail("undeclared-key", "%s %q won by %q (form %s): parameter %s=%q is bound neither by the form that matched nor by any other route of that method; all: %s", q.M, q.P, leaf.Route(), model.Route{Segs: explainedBy}.Canon(), k, v, rt.Show(vals))
+			}
+			out.Classes = append(out.Classes, "leftover-key")
+			if len(q.P) <= 300 && !pieceOf(q.P, v) {
+				return evid.Fail("leftover-not-a-piece", "%s %q won by %q: leftover parameter %s=%q is not a once-decoded piece of the path; all: %s", q.M, q.P, leaf.Route(), k, v, rt.Show(vals))
+			}
+		}
 		// the round trip is only meaningful when values cannot be mistaken for binds
 		roundTrip := true
-		for _, v := range vals {
-			if strings.Contains(v, "{") {
+		for k, v := range vals {
+			if bound[k] && strings.Contains(v, "{") {
 				roundTrip = false
+				out.Classes = append(out.Classes, "roundtrip-skipped")
 			}
 		}
 		if roundTrip && !urlOK {
